@@ -63,6 +63,9 @@ func c08Gen(r *Rand, tier string) interface{} {
 	if tier == "thorough" && r.Chance(1, 4) {
 		maxNodes = 10 + r.Intn(25)
 	}
+	if r.Chance(1, 60) {
+		maxNodes = 80 + r.Intn(200) // past any plausible batch size
+	}
 	dirs := []string{""}
 	seen := map[string]bool{}
 	switch r.Intn(5) {
@@ -83,6 +86,9 @@ func c08Gen(r *Rand, tier string) interface{} {
 	for n := len(in.Dirs); n < maxNodes; n++ {
 		parent := dirs[r.Intn(len(dirs))]
 		name := names[r.Intn(len(names))] + fmt.Sprint(r.Intn(3))
+		if maxNodes > 40 {
+			name = names[r.Intn(len(names))] + fmt.Sprint(r.Intn(400))
+		}
 		p := strings.TrimPrefix(parent+"/"+name, "/")
 		if seen[p] {
 			continue
@@ -192,7 +198,9 @@ func c08Run(inI interface{}, env *Env) *Failure {
 		st                = &FaultState{FailAt: map[int]string{}}
 		setupErr          error
 	)
-	res := env.Sim(SimOpts{MaxSteps: 20000, FairSteps: 20000}, func() {
+	// the budget scales with the tree: a big walk is not a hang
+	nodes := len(in.Dirs) + len(in.Files)
+	res := env.Sim(SimOpts{MaxSteps: 20000 + 4000*nodes, FairSteps: 20000 + 4000*nodes}, func() {
 		workers.MaxJob, fsloop.ChanSize = in.MaxJob, in.ChanSize
 		mem, err := memfs.NewFilespace()
 		if err != nil {
